@@ -804,6 +804,30 @@ const GENERATOR: Fp = Fp(blst_fp {
     ],
 });
 
+/// -1, the primitive square root of unity (p - 1 = 2 * t with t odd).
+const NEG_ONE: Fp = Fp(blst_fp {
+    l: [
+        0x43f5_ffff_fffc_aaae,
+        0x32b7_fff2_ed47_fffd,
+        0x07e8_3a49_a2e9_9d69,
+        0xeca8_f331_8332_bb7a,
+        0xef14_8d1e_a0f4_c069,
+        0x040a_b326_3eff_0206,
+    ],
+});
+
+/// DELTA = GENERATOR^(2^S) = 4.
+const DELTA: Fp = Fp(blst_fp {
+    l: [
+        0xaa27_0000_000c_fff3,
+        0x53cc_0032_fc34_000a,
+        0x478f_e97a_6b0a_807f,
+        0xb1d3_7ebe_e6ba_24d7,
+        0x8ec9_733b_bf78_ab2f,
+        0x09d6_4551_3d83_de7e,
+    ],
+});
+
 impl crate::ff_ext::Legendre for Fp {
     #[inline(always)]
     fn legendre(&self) -> i64 {
@@ -834,12 +858,10 @@ impl PrimeField for Fp {
     const CAPACITY: u32 = Self::NUM_BITS - 1;
     const TWO_INV: Self = TWO_INV;
     const MULTIPLICATIVE_GENERATOR: Self = GENERATOR;
-    const S: u32 = 0;
-
-    // These constants are not needed for the base field.
-    const ROOT_OF_UNITY: Self = Fp::ONE;
-    const ROOT_OF_UNITY_INV: Self = Fp::ONE;
-    const DELTA: Self = Fp::ZERO;
+    const S: u32 = 1;
+    const ROOT_OF_UNITY: Self = NEG_ONE;
+    const ROOT_OF_UNITY_INV: Self = NEG_ONE;
+    const DELTA: Self = DELTA;
 }
 
 impl PrimeFieldBits for Fp {
